@@ -189,6 +189,10 @@ def view_bounds(prog, rep, tag):
             rep.ob(P, "%s:len%s" % (key, tag), c2, "len = the header's length field, unmodified", loc=q.loc(b, bi, si), how="dataflow")
             rep.ob(P, "%s:wkc-read-bounds-payload%s" % (key, tag), c3, "working_counter is decoded from buf.get(PACKED_LEN+len..): its success bounds data_start+len inside the buffer", loc=q.loc(b, bi, si), how="dataflow")
     rep.floor("C01 ReceivedPdu constructions" + tag, n, 3)
+    from .. import npcommon
+
+    okc, whyc = npcommon.guard_trim_min(prog)
+    rep.ob(P, "trim_front:clamped" + tag, okc, "trim_front clamps the requested amount to the view's length before moving the pointer: " + whyc, loc=prog.body("ReceivedPdu::trim_front").span, how="dataflow")
     # pairing: whoever advances data_start shrinks len by the same amount
     for b in prog.bodies:
         if b.crate != "ethercrab" or q.aggregates(b, "ReceivedPdu"):
